@@ -87,6 +87,11 @@ CHECKS = {
         text="TLA+ model of validation + archive healing (validator pass dirs -> symlinks -> files, FIFO wound channel, the healer's wound loop and heal goroutine, all interleaved) over an abstract POSIX tree with ENOENT/ENOTDIR resolution and MkdirAll/RemoveAll semantics, model-checked for a tree with nested directories, two files and a symlink over EVERY well-formed damaged disk (426) and every interleaving: Validate returns nil and the disk equals the signed build. The real Validate with an archive healer runs with hooks under seeded jitter and GOMAXPROCS 1..16 on all 426 disks of the model's tree and on generated builds with damage sequences plus kind swaps that hide whole subtrees, missing / empty directories and already valid directories; TLC checks: returns, no error, entry-by-entry equality with the signed build, fail-fast validation passes afterwards, a valid directory is left untouched (inode, mtime, size, mode), no goroutine left.",
         note="archive = zip written by the harness; real interleavings sampled by jitter (all interleavings in the model only); symlinked ancestors abstracted in the model.",
         technique="TLA+ model checking (TLC) + real heals of the model's own universe and of generated damage validated against the TLA+ property"),
+    "C19": dict(
+        level="model_checking", ref="DESIGN.md §4 C19",
+        text="TLA+ model of the zip extraction worker pool (rendezvous dispatch, resume register, crash at any step, restart with the surviving folder and resume file) model-checked for 2..3 workers, 3..4 entries and 1..2 crashes: after the final run every entry is complete. Real CompressZip/ExtractZip with 1, 2, 3, 4, 8, 16 and -1 workers and CompressTar/ExtractTar on trees with nested and empty dirs, empty files, symlinks and many small files: TLC checks tree equality and that the reported counts equal the entries; resumable extractions are killed at chosen instants (resume file, then a copy of the destination folder, taken from inside OnEntryDone while the other workers keep running; reads of a large first entry slowed down so that later entries complete first) and restarted with the surviving resume file - the tree must be complete; a -race build repeats a subset and race reports with archiver frames are reported.",
+        note="kill = (resume file read first, then folder copy), at least as complete as the folder at the read; tar: round trip only.",
+        technique="TLA+ model checking (TLC) + trace validation of real round trips and kill/restart executions against the TLA+ property; Go race detector for the counter clause"),
 }
 
 NOT_YET = "check not built yet in this round (planned: DESIGN.md §4); not a claim that the technique cannot apply"
